@@ -1,5 +1,5 @@
 From Coq Require Import ZArith List Bool.
-From RV Require Import Base.Wire Base.Text Lang.Lex Lang.PyLayout Lang.Layout.
+From RV Require Import Base.Wire Base.Text Lang.Lex Lang.PyLayout Lang.Layout Lang.DispatchSpec.
 Import ListNotations.
 Open Scope Z_scope.
 
@@ -49,6 +49,9 @@ Definition dec_ltop (v : wv) : option ltop :=
   | WL [WI 2; pre; h; tr; WL body] =>
       match un_texts pre, un_text h, un_text tr, dec_ltrees body with
       | Some p, Some h', Some t, Some b => Some (LDef p h' t b) | _, _, _, _ => None end
+  | WL [WI 3; pre; s; tr] =>
+      match un_texts pre, un_text s, un_text tr with
+      | Some p, Some s', Some t => Some (LImp p s' t) | _, _, _ => None end
   | _ => None
   end.
 Fixpoint dec_ltops (l : list wv) : option (list ltop) :=
@@ -114,7 +117,7 @@ Definition run (v : wv) : wv :=
   | WL [WI 9; u; WL tops; junk] =>
       match un_text u, dec_ltops tops, un_texts junk with
       | Some u', Some ts, Some j =>
-          wok [wtexts (render_top (ind_unit u') ts j); WL (map enc_sitem (map lerase_top ts))]
+          wok [wtexts (render_top (ind_unit u') ts j); WL (map enc_sitem (lerase_tops ts))]
       | _, _, _ => wbad end
   | WL [WI 10; ls] =>
       match un_texts ls with
@@ -126,5 +129,23 @@ Definition run (v : wv) : wv :=
           wok [wtexts (render_list (ind_unit u') O ts); wbool (layout_ok u' ts);
                WL (map enc_stree (map erase (parse_lines (render_list (ind_unit u') O ts))))]
       | _, _ => wbad end
+  | WL [WI 13; u; WL tops; junk] =>
+      match un_text u, dec_ltops tops, un_texts junk with
+      | Some u', Some ts, Some j => wok [wbool (top_layout_ok u' ts j)]
+      | _, _, _ => wbad end
+  | WL [WI 12; k; c; o] =>
+      (* the line-accounting SPEC applied to one observed row: kind index, context index, outcome
+         (0 translated, 1 rejected, 2 ignored) -> allowed, known gap, row_ok, row_pinned_ok *)
+      match un_nat k, un_nat c, un_nat o with
+      | Some kn, Some cn, Some on =>
+          match find (fun x => Nat.eqb (kind_id x) kn) all_kinds,
+                find (fun x => Nat.eqb (ctx_id x) cn) all_contexts,
+                nth_error [Translated; Rejected; Ignored] on with
+          | Some k', Some c', Some o' =>
+              wok [wbool (allowed k'); wbool (known_gap k' c'); wbool (row_ok (k', c', o'));
+                   wbool (row_pinned_ok (k', c', o'))]
+          | _, _, _ => werr 1
+          end
+      | _, _, _ => wbad end
   | _ => wbad
   end.
